@@ -101,6 +101,7 @@ func (s *ServiceExpr) Finalize() {
 // custom error types.
 func (e *ErrorExpr) Validate() error {
 	verr := new(eval.ValidationErrors)
+	verr.Merge(e.AttributeExpr.Validate("error "+e.Name, e))
 	var errField string
 	walkAttribute(e.AttributeExpr, func(name string, att *AttributeExpr) error { // nolint: errcheck
 		if _, ok := att.Meta["struct:error:name"]; ok {
